@@ -41,14 +41,13 @@ func ByteInts(b []byte) []int {
 	return out
 }
 
-// GasDigits encodes a gas amount as little-endian digits in base 2^30
-// (canonical, zero = []), so that TLC's 32-bit integers can add, subtract and
-// compare amounts up to 2^64.
+// GasDigits encodes a gas amount as BigNat digits in base 256 (little-endian,
+// canonical, zero = []): TLC's integers are 32-bit, gas is a uint64.
 func GasDigits(g uint64) []int {
 	out := []int{}
 	for g > 0 {
-		out = append(out, int(g&(1<<30-1)))
-		g >>= 30
+		out = append(out, int(g&0xff))
+		g >>= 8
 	}
 	return out
 }
@@ -61,14 +60,16 @@ func Keccak(b []byte) []byte {
 
 // Options select what the recorder logs.
 type Options struct {
-	Values      bool // stack words, memory image, return data after every step (C10)
-	Gas         bool // gas before / cost / after charge / after execution (C11)
-	Frames      bool // Enter / Exit events for every interpreter frame
-	MaxMem      int  // memory images larger than this are logged by length only
-	MaxSteps    int  // stop logging Step events of a run after this many (Faults and frames still logged)
-	EnterExtra  func(f *vm.VerifFrame) map[string]interface{}
-	ExitExtra   func(f *vm.VerifFrame, err error, logs []*types.Log) map[string]interface{}
-	StepFilter  func(depth int, op byte) bool // when set, only steps it accepts are logged
+	Values     bool // stack words, memory image, return data after every step (C10)
+	Gas        bool // gas before / cost / after charge / after execution (C11)
+	Frames     bool // Enter / Exit events for every interpreter frame
+	MaxMem     int  // memory images larger than this are logged by length only
+	MaxSteps   int  // stop logging Step events of a run after this many (Faults are always logged)
+	MaxFrames  int  // stop logging Enter/Exit pairs of a run after this many frames
+	MaxFaults  int  // stop logging Fault events of a run after this many
+	EnterExtra func(f *vm.VerifFrame) map[string]interface{}
+	ExitExtra  func(f *vm.VerifFrame, err error, logs []*types.Log) map[string]interface{}
+	StepFilter func(depth int, op byte) bool // when set, only steps it accepts are logged
 }
 
 type pending struct {
@@ -77,6 +78,7 @@ type pending struct {
 	sl0, sl1         int
 	ml0, ml1         int
 	charged, done    bool
+	ro               bool
 	err              error
 	stack            [][]int
 	memPre           []byte
@@ -89,6 +91,7 @@ type pending struct {
 
 type frame struct {
 	depth   int
+	logged  bool
 	p       *pending
 	steps   int
 	lastGas uint64 // gas when the previous step of this frame ended (entry gas before the first)
@@ -98,11 +101,16 @@ type frame struct {
 // step ("Step"), per step that ended its frame with an error ("Fault") and,
 // optionally, per frame entry and exit.
 type Recorder struct {
-	T      *vutil.Trace
-	Opt    Options
-	frames []*frame
-	Steps  int // steps seen in the current run (all depths)
-	Logged int
+	T            *vutil.Trace
+	Opt          Options
+	frames       []*frame
+	Steps        int // steps seen in the current run (all depths)
+	Logged       int
+	FramesLogged int
+	FaultsLogged int
+	FramesSeen   int
+	Truncated    bool // some step or frame of the current run was not logged
+	PanicOp      int  // opcode whose execute did not return (a panic unwound the frame), else -1
 	// statistics over the whole life of the recorder
 	OpCount    map[int]int
 	FaultCount map[string]int
@@ -124,6 +132,8 @@ func (r *Recorder) Install() { vm.VerifSetObserver(r) }
 func (r *Recorder) BeginRun(id int) {
 	r.frames = r.frames[:0]
 	r.Steps, r.Logged, r.Run = 0, 0, id
+	r.FramesLogged, r.FramesSeen, r.Truncated, r.FaultsLogged = 0, 0, false, 0
+	r.PanicOp = -1
 	r.LastStack, r.LastMem = [][]int{}, nil
 }
 
@@ -142,9 +152,20 @@ func (r *Recorder) FrameEnter(f *vm.VerifFrame) {
 	if f.Depth > r.MaxDepth {
 		r.MaxDepth = f.Depth
 	}
-	if r.Opt.Frames {
+	r.FramesSeen++
+	if r.Opt.Frames && r.Opt.MaxFrames > 0 && r.FramesLogged >= r.Opt.MaxFrames {
+		r.Truncated = true
+	} else if r.Opt.Frames {
+		r.FramesLogged++
+		r.top().logged = true
 		ev := map[string]interface{}{"event": "Enter", "run": r.Run, "depth": f.Depth, "static": f.StaticArg,
-			"ro": f.ReadOnly, "gas": GasDigits(f.Gas), "codeLen": len(f.Code), "nframes": len(r.frames)}
+			"ro": f.ReadOnly, "gas": GasDigits(f.Gas), "codeLen": len(f.Code), "nframes": len(r.frames),
+			"value0": f.Value == nil || f.Value.Sign() == 0, "pop": -1, "pg1": []int{}}
+		if len(r.frames) >= 2 {
+			if pp := r.frames[len(r.frames)-2].p; pp != nil && pp.charged {
+				ev["pop"], ev["pg1"] = pp.op, GasDigits(pp.g1)
+			}
+		}
 		if r.Opt.EnterExtra != nil {
 			for k, v := range r.Opt.EnterExtra(f) {
 				ev[k] = v
@@ -159,7 +180,7 @@ func (r *Recorder) FrameExit(f *vm.VerifFrame, ret []byte, logs []*types.Log, er
 	if fr != nil && fr.p != nil {
 		r.flush(fr, -1, err, ret, f.Gas)
 	}
-	if r.Opt.Frames {
+	if r.Opt.Frames && fr != nil && fr.logged {
 		ev := map[string]interface{}{"event": "Exit", "run": r.Run, "depth": f.Depth, "static": f.StaticArg,
 			"ro": f.ReadOnly, "gas": GasDigits(f.Gas), "err": ErrClass(err), "retLen": len(ret), "nlogs": len(logs),
 			"nframes": len(r.frames), "steps": 0}
@@ -189,7 +210,7 @@ func (r *Recorder) StepFetched(s *vm.VerifStep) {
 	r.Steps++
 	fr.steps++
 	r.OpCount[int(s.Op)]++
-	p := &pending{pc: int(s.Pc), op: int(s.Op), g0: s.Gas, sl0: len(s.Stack), ml0: len(s.Mem)}
+	p := &pending{pc: int(s.Pc), op: int(s.Op), g0: s.Gas, sl0: len(s.Stack), ml0: len(s.Mem), ro: s.ReadOnly}
 	if r.Opt.Values {
 		p.memPre = append([]byte(nil), s.Mem...)
 		p.rdPre = append([]byte(nil), s.ReturnData...)
@@ -251,7 +272,7 @@ func (r *Recorder) flush(fr *frame, npc int, exitErr error, ret []byte, gasNow u
 	p := fr.p
 	fr.p = nil
 	ev := map[string]interface{}{"run": r.Run, "depth": fr.depth, "pc": p.pc, "op": p.op, "npc": npc,
-		"sl0": p.sl0, "ml0": p.ml0}
+		"sl0": p.sl0, "ml0": p.ml0, "ro": p.ro}
 	completed := p.done && p.err == nil
 	if completed {
 		ev["event"] = "Step"
@@ -278,7 +299,10 @@ func (r *Recorder) flush(fr *frame, npc int, exitErr error, ret []byte, gasNow u
 		if p.done {
 			stage = "exec"
 		} else if p.charged {
-			stage = "charged" // cannot happen: execute always reports back
+			stage = "charged" // execute did not return: a panic is unwinding the frame
+			if r.PanicOp < 0 {
+				r.PanicOp = p.op
+			}
 		}
 		ev["stage"] = stage
 		e := exitErr
@@ -336,7 +360,15 @@ func (r *Recorder) flush(fr *frame, npc int, exitErr error, ret []byte, gasNow u
 		}
 	}
 	if completed && r.Opt.MaxSteps > 0 && r.Logged >= r.Opt.MaxSteps {
+		r.Truncated = true
 		return
+	}
+	if !completed {
+		if r.Opt.MaxFaults > 0 && r.FaultsLogged >= r.Opt.MaxFaults {
+			r.Truncated = true
+			return
+		}
+		r.FaultsLogged++
 	}
 	if r.Opt.StepFilter != nil && completed && !r.Opt.StepFilter(fr.depth, byte(p.op)) {
 		return
